@@ -50,14 +50,15 @@ OBLIGATIONS = [
     "SkVerif.C15.tab2_to_nested",
     "SkVerif.C15.arr3_tab2_nested_arr3_univariate",
     "SkVerif.C15.arr3_tab2_nested_concat",
-    "SkVerif.C15.tab2_to_nested_array_cells_rejected",
+    "SkVerif.C15.tab2_to_nested_array_cells_witness",
     "SkVerif.C15.nested_to_long",
     "SkVerif.C15.long_rows_complete",
     "SkVerif.C15.sortVars_spec",
     "SkVerif.C15.nested_long_nested",
-    "SkVerif.C15.nested_long_nested_partial",
-    "SkVerif.C15.long_roundtrip_loses_names",
-    "SkVerif.C15.long_roundtrip_mislabels_default_names",
+    "SkVerif.C15.nested_long_nested_identity",
+    "SkVerif.C15.nested_long_nested_renamed",
+    "SkVerif.C15.long_roundtrip_keeps_names_witness",
+    "SkVerif.C15.long_roundtrip_default_names_witness",
     "SkVerif.C15.long_row_order_irrelevant",
     "SkVerif.C15.nested_to_long_reserved_name_rejected",
     "SkVerif.C15.nested_to_long_reserved_witness",
@@ -78,7 +79,7 @@ ASSUMPTIONS = [
     "values are finite floats (dyadic rationals in the stream); no NaN; conversions never inspect values (the model is polymorphic in the value type)",
     "column names are python str or int, pairwise distinct, not mixed within one frame (duplicate / reserved names only in the malformed stream)",
     "frames that would contain NaN after pd.concat / pivot (unequal series lengths inside from_nested_to_multi_index, incomplete long tables) are outside the model (E:unmodelled, never generated)",
-    "Series cells are unnamed or named by their column (what sktime's converters produce); other Series names are exercised by the oracle only (not modelled)",
+    "the name attribute of the Series in the cells is irrelevant to every converter (since 89ac2e4); the stream includes cells named by column, by instance and in permuted order, sent to the same model line as unnamed cells",
 ]
 RULE = ("exhaustive small scope: shapes (1..3)x(1..3)x(1..4) x name sets (default / str / str-unsorted / int) x start container (5 kinds) x every type-correct "
         "conversion path of length <= 3 with seeded options (quick: seed-rotated 1/6 slice; thorough: all, two draws of the options each); random larger panels (up to 8 x 13 x 12, paths <= 4); "
@@ -88,13 +89,12 @@ LEVEL_TEXT = "proof"
 LEVEL_NOTE = ("Proved for the model, for all shapes n,c>=1 (t>=1 where a multi-index frame / long table is involved), all value types and all pairwise distinct names: "
               "every single converter maps the canonical container of a panel to the canonical container of the panel the property predicts; hence all round trips, "
               "path independence for paths of ANY length over all five containers (path5_preserves_panel / path5_independence), the name rule (kept while every container "
-              "carries names, var_i after a 3-D array), the long table's sort-by-identifier with every identifier keeping its data, row-order independence of "
-              "from_long_to_nested, the nestedness predicates, check_X coercions. "
-              "Defects of the code kept in the model and proved as such (negation at a witness + _partial theorem): from_long_to_nested relabels by position after sorting "
-              "(names lost / data under another variable's name), from_2d_array_to_nested(cells_as_numpy=True) always raises, reserved names break from_nested_to_long, "
-              "duplicate names drop columns in from_3d_numpy_to_nested. "
+              "carries names, var_i after a 3-D array), the long table's sort-by-identifier with every identifier keeping its name and data (nested_long_nested, full strength "
+              "since fix e35dbc7), row-order independence of from_long_to_nested, Series and array cells from a 2-D table (since fix 9d494a8), the nestedness predicates, check_X coercions. "
+              "Recorded findings kept in the model and proved as such: reserved names (index/time_index/value) break from_nested_to_long, duplicate names drop columns in "
+              "from_3d_numpy_to_nested. "
               "Only observed by the correspondence (no theorem): the mixed primitive/nested branch (ffill) of from_nested_to_multi_index / from_nested_to_3d_numpy, error kinds on "
-              "malformed arguments, 2-D numpy input to the 3-D converters. Not modelled: Series cells carrying a name (oracle only; a further defect is reported), non-default "
+              "malformed arguments, 2-D numpy input to the 3-D converters, irrelevance of the cells' Series names (fix 89ac2e4). Not modelled: non-default "
               "row / time indexes, NaN-producing ragged frames, duplicate instance labels.")
 TECHNIQUE = "Lean 4 theorems about an executable model + differential correspondence with the real converters + property oracle"
 
@@ -202,8 +202,6 @@ def enc_hop(h):
 def to_line(c):
     if c["op"] == "path":
         r = c["start"]
-        if r["k"] == "N" and r.get("snames"):
-            return None          # named Series cells: oracle only (not modelled)
         if c.get("direct"):
             return "C15 pathd %s %s %s" % (enc_rep(r), enc_hop(c["direct"]), " ".join(enc_hop(h) for h in c["hops"]))
         return ("C15 path %s %s" % (enc_rep(r), " ".join(enc_hop(h) for h in c["hops"]))).rstrip()
@@ -1033,8 +1031,8 @@ def gen_malformed(tier, rng, cases):
 
 
 def gen_snames(tier, rng, cases):
-    """Series cells that carry a `name` (oracle only; not sent to the model)"""
-    nr = 6 if tier == "quick" else 40
+    """Series cells that carry a `name`: the model ignores names, the real code must too (defect fixed in 89ac2e4)"""
+    nr = 20 if tier == "quick" else 200
     for _ in range(nr):
         n, c, t = rng.randrange(1, 4), rng.randrange(1, 4), rng.randrange(2, 4)
         vals = mk_vals(rng, n, c, t)
